@@ -20,7 +20,12 @@
 
 package gen
 
-import "go.uber.org/thriftrw/compile"
+import (
+	"encoding/json"
+	"strconv"
+
+	"go.uber.org/thriftrw/compile"
+)
 
 // goLabelKey is a Thrift annotation that allows overriding the text
 // formatting of an enum item or a struct field.
@@ -43,4 +48,27 @@ func entityLabel(e compile.NamedEntity) string {
 		return val
 	}
 	return e.ThriftName()
+}
+
+// quotedLabel returns the label of the given entity in the form in which it can
+// be placed between the double quotes of a Go string literal: the literal then
+// denotes the label, whatever characters it contains (a quote or a backslash
+// would otherwise end the literal or start an escape sequence).
+func quotedLabel(e compile.NamedEntity) string {
+	return unquotedContent(strconv.Quote(entityLabel(e)))
+}
+
+// quotedJSONLabel is quotedLabel for the JSON string that holds the label
+// (surrounding quotes of the JSON string included).
+func quotedJSONLabel(e compile.NamedEntity) (string, error) {
+	bs, err := json.Marshal(entityLabel(e))
+	if err != nil {
+		return "", err
+	}
+	return unquotedContent(strconv.Quote(string(bs))), nil
+}
+
+// unquotedContent strips the surrounding quotes off a quoted string.
+func unquotedContent(q string) string {
+	return q[1 : len(q)-1]
 }
